@@ -735,7 +735,39 @@ func (v *MaryTransactionOutputValue) UnmarshalCBOR(data []byte) error {
 	if _, err := cbor.Decode(data, &tmp); err != nil {
 		return err
 	}
+	if err := checkOutputAssetRange(tmp.Assets); err != nil {
+		return err
+	}
 	*v = MaryTransactionOutputValue(tmp)
+	return nil
+}
+
+// checkOutputAssetRange rejects output asset quantities outside 0..2^64-1.
+// Outputs and the mint field share the MultiAsset[*big.Int] type, but only the
+// mint field may carry negative quantities (burns); cardano-ledger decodes
+// output quantities as non-negative 64-bit values.
+func checkOutputAssetRange(
+	assets *common.MultiAsset[common.MultiAssetTypeOutput],
+) error {
+	if assets == nil {
+		return nil
+	}
+	for _, policy := range assets.Policies() {
+		for _, name := range assets.Assets(policy) {
+			qty := assets.Asset(policy, name)
+			if qty == nil {
+				continue
+			}
+			if !qty.IsUint64() {
+				return fmt.Errorf(
+					"transaction output asset quantity out of range: %s.%x = %s",
+					policy.String(),
+					name,
+					qty.String(),
+				)
+			}
+		}
+	}
 	return nil
 }
 
